@@ -411,3 +411,20 @@ def serving_ends_with_the_module_shutdown(ctx):
     fin = [i for n in body_walk(go.node) if isinstance(n, ast.Return) and isinstance(n.value, ast.Constant) and n.value.value is True and n is go.node.body[-1] for i in cfgg.ids(n)]
     ctx.check(bool(marks) and bool(fin) and all(cfgg.dominates(marks, i) for i in fin), f'{g.qualname}:a sorted module is marked done', go.node, 'done.add(name) before the final return True',
               'modules are never marked as done: shared attachments are sorted (appended) several times', g)
+
+
+@rule('C15.R6b', min_instances=1)
+def start_deadline_covers_every_pending_event(ctx):
+    """MultiEvent.deadline() is the maximum over the deadlines of the events still pending (computed when asked): the server's
+    wait for the first poll round ends at the latest of them - a remembered value (the newest event's deadline) ends the wait
+    early when a later module asked for a shorter time-out"""
+    m = ctx.m
+    f = m.method('frappy.lib.multievent.MultiEvent', 'deadline', inherited=False)
+    ctx.analysed(f)
+    loads = {n.attr for n in body_walk(f.node) if isinstance(n, ast.Attribute) and dotted(n.value) == 'self' and isinstance(n.ctx, ast.Load)}
+    over = any(isinstance(n, (ast.For, ast.comprehension)) and 'self.events' in src(n.iter) for n in body_walk(f.node)) or \
+        any(isinstance(c, ast.Call) and dotted(c.func) == 'max' and 'self.events' in src(c) for c in calls_in(f.node))
+    mx = any(isinstance(c, ast.Call) and dotted(c.func) == 'max' for c in calls_in(f.node))
+    ctx.check(over and mx and loads <= {'events'}, f'{f.qualname}:maximum over the pending events', f.node, 'max(event.deadline for the events in self.events)',
+              f'deadline() reads self.{sorted(loads)} and ' + ('does not take the maximum over self.events' if not (over and mx) else 'other state') +
+              ': the wait of Server._processCfg can end before the poll thread with the latest deadline finished its first round', f)
